@@ -28,7 +28,7 @@ Inductive unop := Not | USub | Invert.
 
 Inductive builtin :=
 | BLen | BOrd | BChr | BRange | BDivmod | BHex | BBin | BFromHex
-| BFromBytesBig | BFromBytesLittle | BAny | BAll | BBytes | BInt | BStr | BMin | BMax | BBool | BListOf | BIsInt.
+| BFromBytesBig | BFromBytesLittle | BAny | BAll | BBytes | BInt | BStr | BMin | BMax | BBool | BListOf | BIsInt | BIntDiv | BChunks.
 
 Inductive meth :=
 | MLower | MUpper | MFind | MRfind | MIndex | MJoin | MToBytesBig | MToBytesLittle
